@@ -19,6 +19,7 @@ import ast
 from sa import asdl
 from sa import core
 from sa import fieldtypes
+from sa import formula
 from sa import pat
 from sa import pycfg
 from sa import tpl
@@ -289,6 +290,59 @@ def check(model, rep, tier):
             'by this interpreter: %s' % sorted({d.attr for d in dead}),
             {'lines': [d.lineno for d in dead]},
             witness='x[a + 1:b] -> tmp = a + 1:b')
+  # the edge (parent, field) reported to the configuration is computed afresh for
+  # every field: nothing assigned in one iteration of the field loop is read in
+  # a later one
+  ef = cls.methods.get('_ensure_fields_in_anf')
+  if ef is None:
+    raise core.AnalysisError('_ensure_fields_in_anf not found')
+  floops = [l for l in ast.walk(ef.node) if isinstance(l, ast.For) and
+            core.norm(l.iter).endswith('._fields')]
+  carried = []
+  okf = len(floops) == 1
+  if okf:
+    lp = floops[0]
+    assigned = {}
+    for st in ast.walk(lp):
+      if isinstance(st, ast.Assign):
+        for t in st.targets:
+          if isinstance(t, ast.Name):
+            assigned.setdefault(t.id, []).append(st)
+    # one iteration as a function whose parameters are everything that exists
+    # at its start: a name assigned in the body whose *entry* value can still
+    # reach the call is carried over from the previous iteration
+    import copy as _copy
+    fargs = _copy.deepcopy(ef.node.args)
+    have = {a.arg for a in fargs.args}
+    for nm in sorted(set(assigned) | {x.id for x in ast.walk(lp.target)
+                                      if isinstance(x, ast.Name)}):
+      if nm not in have:
+        fargs.args.append(ast.arg(arg=nm, annotation=None))
+    fake = ast.fix_missing_locations(ast.FunctionDef(
+        name='_iteration', args=fargs, body=lp.body, decorator_list=[], lineno=lp.lineno,
+        col_offset=0))
+    rd = tpl.rdefs(fake)
+    calls_ = [c for c in ast.walk(lp) if isinstance(c, ast.Call) and core.norm(
+        c.func) == 'self._ensure_node_in_anf']
+    for c in calls_:
+      for a in c.args[:2]:
+        for x in ast.walk(a):
+          if isinstance(x, ast.Name) and x.id in assigned:
+            ds = rd.reaching(x, x.id) or []
+            if any(isinstance(d, tuple) and d[0] == 'param' for d in ds):
+              carried.append(x.id)
+    call = [c for c in ast.walk(lp) if isinstance(c, ast.Call) and core.norm(
+        c.func) == 'self._ensure_node_in_anf']
+    okf = len(call) == 1 and not any(
+        isinstance(x, ast.Name) and x.id in carried for a in call[0].args[:2]
+        for x in ast.walk(a))
+  rep.check(okf, 'ANF-TRAV', '%s:edge-per-field' % ef.site,
+            'the field name handed to the configuration must be that of the '
+            'field being processed (or the incoming super_field): a value set '
+            'while processing one field and reused for the next reports every '
+            'later operand under the first field\'s name', {'loop_carried': sorted(set(carried))},
+            line=ef.node.lineno,
+            witness="a configuration naming (ast.Call, 'args', ...) or (ast.BinOp, 'right', ...)")
   en = cls.methods.get('_ensure_node_in_anf')
   tables = [n for n in ast.walk(en.node) if isinstance(n, ast.Call) and
             core.dotted(n.func) == 'isinstance' and isinstance(n.args[1], ast.Tuple)]
